@@ -17,6 +17,10 @@ let rows_of s =
   List.map (fun r -> match String.split_on_char ':' r with
     | [k; idx; ts] -> (unhex k, (n_of_string idx, z_of_string ts))
     | _ -> failwith ("row " ^ r)) (String.split_on_char ',' s)
+(* -toy: run with the toy hash of Ctlog/Example.v instead of SHA-256 (extraction cross-check: the same
+   event list is evaluated by vm_compute inside Coq, where SHA-256 does not exist) *)
+let toy = Array.length Sys.argv > 1 && Sys.argv.(1) = "-toy"
+let sha_bytes = if toy then toy_sha else sha_bytes
 let do_ev e =
   let (w, obs) = step_show sha_bytes !world e in
   world := w;
